@@ -460,7 +460,11 @@ func (e *Engine) nativeReplay(rfile string, recs []replayRec) []string {
 			continue
 		}
 		for _, i := range idxs {
-			out[i] = runReplay(bin, dir, rfile, i, 20*time.Second)
+			extra := ""
+			if recs[i].Kind == "fault" && strings.Contains(recs[i].Label, "unmapped memory") {
+				extra = "VERIF_REAL_UNMAP=1" // mappings become real memory regions that are really unmapped
+			}
+			out[i] = runReplay(bin, dir, rfile, i, 20*time.Second, extra)
 		}
 	}
 	return out
@@ -555,12 +559,17 @@ func (e *Engine) buildReplayBinary(tmp, pkg string) (string, string, error) {
 	return bin, pkgDir, nil
 }
 
-func runReplay(bin, dir, rfile string, idx int, timeout time.Duration) string {
+func runReplay(bin, dir, rfile string, idx int, timeout time.Duration, extraEnv ...string) string {
 	cmd := exec.Command("timeout", "-s", "KILL", fmt.Sprintf("%d", int(timeout.Seconds())), bin, "-test.run", "^TestVerifReplay$", "-test.v", "-test.timeout", "0")
 	cmd.Dir = dir
 	td, _ := os.MkdirTemp("", "verif-replay-home-")
 	defer os.RemoveAll(td)
 	cmd.Env = append(os.Environ(), "VERIF_REPLAY="+rfile, fmt.Sprintf("VERIF_REPLAY_INDEX=%d", idx), "HOME="+td, "XDG_CONFIG_HOME="+td, "VERIF_TMP="+td)
+	for _, e := range extraEnv {
+		if e != "" {
+			cmd.Env = append(cmd.Env, e)
+		}
+	}
 	tStart := time.Now()
 	b, err := cmd.CombinedOutput()
 	if os.Getenv("VERIF_TRACE") != "" {
